@@ -203,6 +203,9 @@ class C11(Prop):
             for (y, m, d) in _dates_for(z, ctx):
                 for hh in (0, 12, 23):
                     out.append({"zone": z, "date": [y, m, d], "now_hh": hh, "seed": ctx.rng.randrange(1 << 30)})
+        for (y, m, d) in ((2026, 12, 31), (2026, 6, 15)):
+            for z in zones:                     # one date, zone after zone, in one process
+                out.append({"zone": z, "date": [y, m, d], "now_hh": 12, "seed": 5 * ctx.rng.randrange(1 << 20)})
         return out
 
     def execute(self, scn):
@@ -314,7 +317,10 @@ class C13(Prop):
                 rules = zone_rules(z, now)
                 clk.move_to(float(now) + 0.5)
                 st = f"{startmin // 60:02d}:{startmin % 60:02d}"
+                short = f"{startmin // 60}:{startmin % 60:02d}" if (nowmin + startmin) % 3 == 0 else (f"{startmin // 60:02d}:{startmin % 60}" if (nowmin + startmin) % 3 == 1 else st)
                 for n, days in enumerate(subsets):
+                    if n % 8 == 3:
+                        st, short = short, st          # the same time spelled without leading zeros
                     ds = {D[x] for x in days}
                     if n % 16 == 5:
                         txt = SwitcherSchedule("0", bool(ds), ds, st, "23:59").display
